@@ -5,7 +5,8 @@ What is real:   experiment.runtime.engine.Engine / RepeatingEngine (constructed 
                 experiment.runtime.workflow.ComponentState (restart(), finish(), state),
                 experiment.runtime.control.Controller (postMortemCheck(), _restartComponent(), _unstableSystemRestart(),
                 TransitionComponentToFinalState), the hook import machinery (experiment.model.hooks) and the DLMESO fallback,
-                the restart hooks: real python files in <instance>/hooks which answer what the harness wrote to a side file.
+                the restart hooks: real python files in <instance>/hooks (restart.py / a named file) imported by the real
+                machinery on every restart; they behave as the environment variable C12_HOOK_ANSWER says and report each call.
 What is replaced (the environment, from this process only, by module attributes -- /repo is not touched):
   * rx thread pools / new-thread schedulers  -> an inert scheduler: nothing that is scheduled ever runs, no thread is created
     (state emissions are not part of this property; the driver reads the objects directly);
@@ -13,7 +14,9 @@ What is replaced (the environment, from this process only, by module attributes 
   * threading.Thread inside engine.py        -> a recorder: RepeatingEngine.restart "starts" its restart thread, the harness
     counts it as a task start and executes the body synchronously when the spec says that this execution exits;
   * time.sleep in control.py                 -> no-op;  MonitorExceptionTracker.defaultTracker() -> a stub that reports the
-    system (un)stable as the spec's configuration says.
+    system (un)stable as the spec's configuration says;
+  * ComponentSpecification.configuration     -> served from a cache while a World is in use (the real property deep-copies the
+    resolved FlowIR on every access, Engine.restart reads it 4-6 times per call; the configuration is constant in these runs).
 """
 import json
 import os
